@@ -1370,7 +1370,31 @@ class Interp:
             if n > 1:
                 return pos[1]
             raise _Raise(node)
-        if name == "isinstance":
+        if name == "slice" and 1 <= n <= 3 and not kw:
+            parts = [None, None, None]
+            if n == 1:
+                parts[1] = pos[0]
+            else:
+                parts[:n] = pos
+            rs = [F.sym("None") if x is None else to_rat(x) for x in parts]
+            if any(is_unknown(x) for x in rs):
+                return next(x for x in rs if is_unknown(x))
+            return F.fn("slice", *rs)
+        if name == "isinstance" and n == 2:
+            ts = pos[1] if isinstance(pos[1], tuple) else (pos[1],)
+            if all(isinstance(t, Ref) for t in ts):
+                names = {t.name for t in ts}
+                v = pos[0]
+                if isinstance(v, str):
+                    return "str" in names
+                if isinstance(v, tuple):
+                    return bool(names & {"tuple", "list"})       # literal sequences only: the two are not told apart
+                if isinstance(v, DictV):
+                    return "dict" in names
+                if v is None or isinstance(v, bool):
+                    return ("bool" in names or "int" in names) if isinstance(v, bool) else False
+                if isinstance(v, Obj) and v.cls is not None:
+                    return v.cls.name in names
             return NotImplemented
         return NotImplemented
 
